@@ -357,8 +357,8 @@ func runOpsOn(f *fox.Router, opsField string) (outI, outJ, oracles []string) {
 			emit(strings.Join(items, "+"), sortedJoin(items, "+"))
 		case a[0] == "P" && len(a) == 3:
 			var items []string
-			for _, r := range f.Iter().Prefix(slices.Values([]string{a[1]}), unhx(a[2])) {
-				items = append(items, hx(r.Pattern()))
+			for m, r := range f.Iter().Prefix(slices.Values(strings.Split(a[1], "+")), unhx(a[2])) {
+				items = append(items, m+":"+hx(r.Pattern()))
 			}
 			emit(strings.Join(items, "+"), sortedJoin(items, "+"))
 		case a[0] == "X":
@@ -686,7 +686,12 @@ func genReads(r *Rng, pats []string, methods []string) []string {
 		case 4:
 			if len(pats) > 0 {
 				p := Pick(r, pats)
-				ops = append(ops, "P,"+Pick(r, methods)+","+hx(p[:r.Intn(len(p)+1)]))
+				// Prefix over one method or over several (the iterator walks them in the given order)
+				ms := Pick(r, methods)
+				if r.Chance(50) {
+					ms = strings.Join([]string{Pick(r, methodPool), Pick(r, methods), Pick(r, methods), Pick(r, methodPool)}[:2+r.Intn(3)], "+")
+				}
+				ops = append(ops, "P,"+ms+","+hx(p[:r.Intn(len(p)+1)]))
 			}
 		case 5:
 			if len(pats) > 0 {
